@@ -11,11 +11,16 @@
     instantiated by C01's model of [invert_matrix] ([slice_invert], Model/SolveInst.v) and that hypothesis
     is discharged from C01's theorems.  Those theorems assume nothing about the inner solve; what remains
     is a condition on the data alone: the p x p Toeplitz matrix of the autocorrelations has a left inverse
-    ([Spec.Solve.nonsingular]; implied by positive definiteness; for p = 1, 2 by a nonzero variance). *)
+    ([Spec.Solve.nonsingular]; implied by positive definiteness; for p = 1, 2 by a nonzero variance).
+
+    UNCONDITIONAL (last section; proofs in Proofs/C13_toeplitz.v): that data condition is PROVED for every order
+    p >= 1 from a nonzero variance (= not all values equal): the Toeplitz matrix of the autocorrelations is
+    positive definite (Gram representation by the shifts of the zero-padded centred series), so the composed fit
+    theorem holds with no hypothesis other than a positive order and a nonconstant series. *)
 From Coq Require Import Reals List Arith ZArith Bool.
 From Compute Require Import Base.Ops Base.ListMat Model.Reduce Model.MatMul Model.TimeSeries Model.SolveInst
   Spec.TimeSeries Proofs.C13_base Proofs.C13_acf Proofs.C13_ar Proofs.C13_conv Proofs.C13_ar1 Proofs.C13_total Proofs.C13_examples
-  Proofs.C13_compose.
+  Proofs.C13_compose Proofs.C13_toeplitz.
 From Compute Require Spec.Factor Spec.Solve.
 Import ListNotations.
 Local Open Scope R_scope.
@@ -322,3 +327,64 @@ Theorem C13_example_composed :
   Spec.Solve.nonsingular (fit_inv_arg RO 2 [0; 1; 3]) 2 /\
   exists coeffs, ar_new_fit RO (slice_invert RO) 2 [0; 1; 3] = Some (coeffs, smean [0; 1; 3]) /\ length coeffs = 2%nat.
 Proof. exact (conj toeplitz_nonsingular_instance fit_composed_instance). Qed.
+
+(** ** the data condition, discharged for EVERY order (proofs in Proofs/C13_toeplitz.v) *)
+
+(** a nonzero biased variance is exactly "not all values of the series are equal" *)
+Theorem C13_nonzero_variance_iff_nonconstant :
+  forall x : list R,
+    acov x 0 <> 0 <-> exists i j, (i < length x)%nat /\ (j < length x)%nat /\ nth i x 0 <> nth j x 0.
+Proof. exact acov0_nonzero_iff_nonconstant. Qed.
+
+(** the quadratic form of the autocovariances is a sum of squares: with a = the mean-centred series (0 beyond its
+    length) and n its length,  sum_{i,j<p} c_i (sum_u a_u a_{u+|i-j|}) c_j = sum_{t<n+p} (sum_{i<p, i<=t} a_{t-i} c_i)^2 *)
+Theorem C13_autocovariance_form_is_gram :
+  forall (a : list R) (c : nat -> R) (p : nat),
+    Spec.Factor.rsum (fun i => Spec.Factor.rsum (fun j =>
+        c i * Rsum (map2 Rmult (skipn (adiff i j) a) a) * c j) p) p
+    = Spec.Factor.rsum (fun t =>
+        Spec.Factor.rsum (fun i => (if (t <? i)%nat then 0 else nth (t - i) a 0) * c i) p *
+        Spec.Factor.rsum (fun i => (if (t <? i)%nat then 0 else nth (t - i) a 0) * c i) p) (length a + p).
+Proof. exact lag_form_gram. Qed.
+
+(** every order p, every series that is not constant: the p x p Toeplitz matrix of the autocorrelations
+    r(|i-j|) is POSITIVE DEFINITE  (x^T R x > 0 for every x that is not zero on 0..p-1) *)
+Theorem C13_toeplitz_positive_definite :
+  forall (p : nat) (data : list R),
+    acov data 0 <> 0 ->
+    forall x : nat -> R, (exists i, (i < p)%nat /\ x i <> 0) ->
+      0 < Spec.Factor.rsum (fun a => Spec.Factor.rsum (fun b => x a * Spec.Factor.getm (fit_inv_arg RO p data) p a b * x b) p) p.
+Proof. exact toeplitz_positive_definite. Qed.
+
+(** hence nonsingular, for every order *)
+Theorem C13_toeplitz_nonsingular_every_order :
+  forall (p : nat) (data : list R),
+    (0 < p)%nat -> acov data 0 <> 0 -> Spec.Solve.nonsingular (fit_inv_arg RO p data) p.
+Proof. exact toeplitz_nonsingular_every_order. Qed.
+
+(** THE FIT, UNCONDITIONALLY: for every order p >= 1 and every series with nonzero variance (of any length, also
+    shorter than the order), [AR::new(p).fit] - mean, autocorrelations, Toeplitz matrix, C01's [invert_matrix],
+    product - RETURNS p coefficients which, read backwards, are THE solution of the Yule-Walker equations of the
+    series' autocorrelations, and the intercept is the series mean.  Nothing is assumed about the inner solve
+    and nothing about the data beyond not being constant. *)
+Theorem C13_fit_total_unconditional :
+  forall (p : nat) (data : list R),
+    (0 < p)%nat -> acov data 0 <> 0 ->
+    exists coeffs, ar_new_fit RO (slice_invert RO) p data = Some (coeffs, smean data) /\ length coeffs = p /\
+      yule_walker (fun t => acorr data (Z.of_nat t)) p (rev coeffs) /\
+      forall phi, yule_walker (fun t => acorr data (Z.of_nat t)) p phi -> phi = rev coeffs.
+Proof. exact fit_total_unconditional. Qed.
+
+(** the same, with the hypothesis on the data spelled out: two entries differ *)
+Theorem C13_fit_total_nonconstant :
+  forall (p : nat) (data : list R) (i j : nat),
+    (0 < p)%nat -> (i < length data)%nat -> (j < length data)%nat -> nth i data 0 <> nth j data 0 ->
+    exists coeffs, ar_new_fit RO (slice_invert RO) p data = Some (coeffs, smean data) /\ length coeffs = p /\
+      yule_walker (fun t => acorr data (Z.of_nat t)) p (rev coeffs) /\
+      forall phi, yule_walker (fun t => acorr data (Z.of_nat t)) p phi -> phi = rev coeffs.
+Proof. exact fit_total_nonconstant. Qed.
+
+(** the hypotheses are satisfiable on a non-trivial instance: order 5 on a series of length 3 *)
+Theorem C13_example_unconditional :
+  exists coeffs, ar_new_fit RO (slice_invert RO) 5 [0; 1; 3] = Some (coeffs, smean [0; 1; 3]) /\ length coeffs = 5%nat.
+Proof. exact fit_unconditional_instance. Qed.
